@@ -621,6 +621,16 @@ v('C09 C10', 'fire', 'filters.py', '    gyro_sd = pd.DataFrame(gyro_sd, index=tr
 v('C10 C11', 'fire', 'filters.py', '    gyro = pd.DataFrame(x_gyro, index=trajectory.index, columns=gyro_model.states)', '    gyro = pd.DataFrame(x_gyro, columns=gyro_model.states)', 'survey: result table without its time index')
 v('C09 C10', 'silent', 'filters.py', '    gyro_sd = pd.DataFrame(gyro_sd, index=trajectory.index, columns=gyro_model.states)', '    gyro_sd = pd.DataFrame(gyro_sd, trajectory.index, gyro_model.states)', 'index and columns passed by position')
 v('C13 C01', 'fire', 'strapdown.py', '                  self.mat_nb, theta, dv, n_data - 1, self.with_altitude)', '                  self.mat_nb, theta, dv, n_data - 1, True)', 'probe: the kernel is run with altitude whatever the stored mode')
+# ------------------------------------------------------------------ round-10 seeds (must fire) and twins
+vp('C01 C02', 'fire', 'seeded/C01-buffers-inherit-pva-dtype/patch.diff', 'round-10 seed C01: state buffers pre-filled by np.full inherit the dtype of the initial Pva')
+vp('C01 C02 C13', 'silent', 'refactors/T02-C01-prefilled-buffers-float.diff', 'twin: the same pre-fill with dtype=float')
+vp('C02', 'fire', 'seeded/C02-integrate-drops-stale-labels/patch.diff', 'round-10 seed C02: integrate filters the increments by time label')
+vp('C07', 'fire', 'seeded/C07-diagonal-shortcut-relative-tolerance/patch.diff', 'round-10 seed C07: diagonal-S shortcut gated by a tolerance')
+vp('C09', 'fire', 'seeded/C09-accel-block-from-the-end/patch.diff', 'round-10 seed C09: accel block addressed from the end by a size that may be zero')
+vp('C18', 'fire', 'seeded/C18-stale-index-after-swap/patch.diff', 'round-10 seed C18: span bounds from an index cached before the operands were exchanged')
+vp('C13', 'fire', 'seeded/C13-predict-on-stale-scratch/patch.diff', 'round-10 seed C13: predict on a scratch buffer that set_pva does not refresh')
+vp('C19', 'fire', 'seeded/C19-imu-columns-by-position/patch.diff', 'round-10 seed C19: Imu columns taken by position')
+vp('C06', 'fire', 'seeded/C06-antenna-position-written-into-pva/patch.diff', 'round-10 seed C06: antenna position written back into the caller\'s pva')
 # ------------------------------------------------------------------ geometry C16 C05 C04 C03 C18
 T = 'transform.py'
 v('C16 C05', 'fire', T, '    rn, _, rp = earth.principal_radii(lla[:, 0], lla[:, 2])\n\n    lla[:, 0] +=',
